@@ -23,6 +23,9 @@ META = {
 
 def run(s):
     q = s.tier == 'quick'
+    for k_, txt_ in enumerate(K.idless_states()):
+        if s.mine(k_):
+            acc.sweep(s, s.load(txt_), txt_, {'workload': 'id-less elements'})
 
     def on_pair_state(ro, cur, ev):
         acc.sweep(s, ro, cur, {'workload': 'pair-history'}, after=(ev or {}).get('msg_cls'))
@@ -42,7 +45,8 @@ def run(s):
             if ev is not None:
                 kind = ev.get('msg_cls')
             acc.sweep(s, ro, cur, {'history': h}, after=kind)
-        K.fuzz_history(s, h, w, steps=(3, 15), text='hostile', timing=timing, on_state=on_state, direct=0.25)
+        K.fuzz_history(s, h, w, steps=(3, 15), text='hostile', timing=timing, on_state=on_state, direct=0.25,
+                       drop=(0.25 if h % 3 == 0 else 0.0))     # a third of the histories: messages that lost one element
     s.hist['fuzz_histories_total'] = n
 
 
